@@ -10,8 +10,10 @@ namespace MenpoModel.C15
 
 /-! ### `labeller_func.wrapper` -/
 
-/-- **the input kind does not matter**: an array, a point cloud, a labelled graph (whatever connectivity and
-labels it carries) and a manager group with the same points are labelled identically -/
+/-- (a restatement of the DEFINITION of `LabFunc.call`, which reads only `x.pts` — it holds by `rfl` and is not a
+property theorem; that the real wrapper treats every input kind alike is `GenProps.Src.wrapper_eq`, about the translated
+source, and the regenerated `resolution_ok` rows) an array, a point cloud, a labelled graph and a manager group with the
+same points are labelled identically by the model -/
 theorem call_kind_independent {α} (f : LabFunc) (x y : LabIn α) (rm : Bool) (h : x.pts = y.pts) :
     f.call x rm = f.call y rm := by
   unfold LabFunc.call
